@@ -14,7 +14,7 @@ use crate::runner::*;
 use crate::src::Src;
 use crate::syn::{gen_sentence, mutate};
 
-pub const RULE: &str = "jp process runs with independently drawn expression (valid core / typed-function / non-sentence / failing at run time / non-ASCII / leading '-'), input text (generated JSON incl. non-ASCII strings, numbers beyond 2^63 and odd spellings, malformed JSON, invalid UTF-8, empty), delivery (stdin or -f file, positional or -e file, missing files) and flags (-u, --ast); oracle = the library called in-process on the same texts: exit 0 and stdout = pretty-printed result + newline (bare string with -u), --ast prints the debug tree without touching the input, any failure => non-zero exit, empty stdout, non-empty stderr, no panic text, no signal; non-trivial = a successful run with a non-ASCII or multi-line result, or a failure after the expression compiled (distinct by argument vector + input)";
+pub const RULE: &str = "jp process runs with independently drawn expression (valid core / typed-function / non-sentence / failing at run time / non-ASCII / leading '-'), input text (generated JSON incl. non-ASCII strings, numbers beyond 2^63 and odd spellings, malformed JSON, JSON with line terminators inserted at generated places (inside or between tokens), invalid UTF-8, empty), delivery (stdin or -f file, positional or -e file, missing files) and flags (-u, --ast); oracle = the library called in-process on the same texts: exit 0 and stdout = pretty-printed result + newline (bare string with -u), --ast prints the debug tree without touching the input, any failure => non-zero exit, empty stdout, non-empty stderr, no panic text, no signal; non-trivial = a successful run with a non-ASCII or multi-line result, or a failure after the expression compiled (distinct by argument vector + input)";
 
 fn jp_path() -> Option<PathBuf> {
     std::env::var("JMV_JP").ok().map(PathBuf::from).filter(|p| p.exists())
